@@ -426,16 +426,17 @@ structure NsecConsts where
   tDS : Nat
   tRRSIG : Nat
   tNSEC : Nat
-  /-- which rdatasets of a delegation point enter its NSEC bitmap: `false` = as shipped (all of the node's),
-  `true` = intended (RFC 4035 §2.3: only NS and DS; the parent is not authoritative for the rest) -/
-  cutTypes : Bool := false
 
 def lookupNode (nodes : List ZNode) (n : Name) : Option ZNode :=
   nodes.find? (fun z => nameEq z.name n)
 
-/-- the types of `node` that are announced in its NSEC bitmap (before RRSIG and NSEC are added) -/
+/-- the types of `node` that are announced in its NSEC bitmap (before RRSIG and NSEC are added): at a
+delegation point only NS and DS (dnspython commit 61a6394, RFC 4035 §2.3; before it: every rdataset of the node).
+The code passes `last_secure_is_delegation = bool(delegation)`, recorded when the name was visited; that value is
+`optTruthy (newDeleg …)` of the node, i.e. exactly this test on the node itself (`optTruthy_newDeleg` in
+Proofs/DnssecSignSet). -/
 def nsecTypes (c : NsecConsts) (zorigin : Name) (node : ZNode) : List Nat :=
-  if c.cutTypes && (node.types.contains c.tNS && !(nameEq node.name zorigin) && truthy node.name) then
+  if node.types.contains c.tNS && !(nameEq node.name zorigin) && truthy node.name then
     node.types.filter fun t => t == c.tNS || t == c.tDS
   else node.types
 
